@@ -375,6 +375,10 @@ class FnImp:
             if fs in ("np.maximum", "np.minimum") and len(e.args) == 2 and not e.keywords:
                 a, ta = self.expr(e.args[0], lines, in_branch)
                 b, tb = self.expr(e.args[1], lines, in_branch)
+                if ta == FLOAT and tb == INT:
+                    b, tb = self.as_float(b, tb, e, e.args[1]), FLOAT
+                if tb == FLOAT and ta == INT:
+                    a, ta = self.as_float(a, ta, e, e.args[0]), FLOAT
                 if ta != FLOAT or tb != FLOAT:
                     self.fail(e, f"{fs} on {ta}, {tb}")
                 return f"({'max' if fs == 'np.maximum' else 'min'} {a} {b})", FLOAT
@@ -1189,6 +1193,8 @@ def translate_cluster(repo, gen, consts, write):
                           {"force_prototype": BOOL})
         fns += t.function("opfython/models/unsupervised.py", "UnsupervisedOPF", "_clustering", "uns_clustering",
                           {"n_neighbours": INT})
+        t.tmp = 2500
+        fns += t.function("opfython/models/unsupervised.py", "UnsupervisedOPF", "propagate_labels", "propagate_labels", {})
         body = emit_struct(t, "`self.subgraph` (a `KNNSubgraph`), flattened: one array per `Node` property the translated "
                               "methods touch; `adjacency` is one list per node.") + fns
         err = None
@@ -1267,6 +1273,9 @@ def translate_density(repo, gen, consts, write):
         t = mk("PSG", ["adjacency", "density", "cost"], ["density", "constant", "min_density", "max_density"], 4000)
         fns = t.function("opfython/subgraphs/knn.py", "KNNSubgraph", "calculate_pdf", "calculate_pdf", {"n_neighbours": INT},
                          local_arrays={"pdf": LFLOAT})
+        t.tmp = 4100
+        fns += t.function("opfython/subgraphs/knn.py", "KNNSubgraph", "eliminate_maxima_height", "eliminate_maxima_height",
+                          {"height": FLOAT})
         return struct_lines(t, "a `KNNSubgraph` flattened to what `calculate_pdf` touches; NOTE the subgraph-level bound "
                                "`KNNSubgraph.density` and the per-node `Node.density` are different fields: the former is `sg_density`") + fns
     emit("PdfImp.lean", "opfython/subgraphs/knn.py (calculate_pdf)", "PdfImp", pdf)
